@@ -299,3 +299,12 @@ Fixpoint ticks_since (k : nat) (ls : list label) (acc : nat) : nat :=
   | [] => acc
   | l :: t => ticks_since k t (tick_upd k l acc)
   end.
+
+(** Request: ctx, cancel := context.WithTimeout(ctx, c.timeout).  The deadline of a
+    call is the earlier of the client timeout and the caller's own deadline (if the
+    caller's context has one), in any unit of time counted from the call's start. *)
+Definition effective_deadline (timeout : nat) (caller : option nat) : nat :=
+  match caller with
+  | None => timeout
+  | Some c => Nat.min timeout c
+  end.
